@@ -81,6 +81,8 @@ pub const KINDS: &[&str] = &[
     "small::LightDataset",
     "SimpleTermIndex<u16>",
     "SimpleTermIndex<u32>",
+    "SimpleTermIndex<Tiny<6>>",
+    "SimpleTermIndex<Tiny<3>>",
 ];
 
 // ------------------------------------------------------------------ systems under test
@@ -253,8 +255,22 @@ impl<I: Index + PartialEq> St for SIndex<I> {
         SIndex(SimpleTermIndex::new())
     }
     fn insert(&mut self, m: &mut Model, q: &MQ) -> Result<(), String> {
+        // capacity: `MAX` is reserved (default graph), so indices 0..MAX-1 can be issued
+        let cap = I::MAX.into_usize();
         for t in q.terms() {
-            let exp = match m.terms.iter().position(|x| x == t) {
+            let known = m.terms.iter().position(|x| x == t);
+            if known.is_none() && m.terms.len() >= cap {
+                // index full: an error is expected, and nothing may change
+                match self.0.ensure_index(t.to_simple()) {
+                    Err(_) => {}
+                    other => return Err(format!("ensure_index({}) on a full index = {other:?}, expected an error", t.show())),
+                }
+                if let Some(i) = self.0.get_index(t.to_simple()) {
+                    return Err(format!("get_index({}) = Some({i:?}) after ensure_index was refused (index full)", t.show()));
+                }
+                continue;
+            }
+            let exp = match known {
                 Some(i) => i,
                 None => {
                     m.terms.push(t.clone());
@@ -577,7 +593,9 @@ fn run_kind(case: &Case, audit: bool) -> Outcome {
         6 => run_history::<SSmallFastDataset>(&case.ops, audit),
         7 => run_history::<SSmallLightDataset>(&case.ops, audit),
         8 => run_history::<SIndex<u16>>(&case.ops, audit),
-        _ => run_history::<SIndex<u32>>(&case.ops, audit),
+        9 => run_history::<SIndex<u32>>(&case.ops, audit),
+        10 => run_history::<SIndex<Tiny<6>>>(&case.ops, audit),
+        _ => run_history::<SIndex<Tiny<3>>>(&case.ops, audit),
     }
 }
 
@@ -695,7 +713,9 @@ impl Check for C10 {
         }
     }
     fn extra_stage(tier: Tier, seed: u64, _known: &Known) -> ExtraResult {
-        asan_stage(tier, seed)
+        let mut res = asan_stage(tier, seed);
+        probe_stage(&mut res);
+        res
     }
 }
 
@@ -930,6 +950,112 @@ fn asan_stage(tier: Tier, seed: u64) -> ExtraResult {
     res
 }
 
+// ------------------------------------------------------------------ probe: indices never issued
+
+/// `TermIndex::get_term` is a *safe* method documented as "may panic" for an index that this
+/// instance never issued. It must then panic (or otherwise stay memory safe), never read out of
+/// bounds. The probe runs in a child process: a panic is fine, death by signal is a failure.
+fn probe_body() -> i32 {
+    fn probe<I: Index>(n: usize, extra: &[usize]) -> (u32, u32) {
+        let mut idx = SimpleTermIndex::<I>::new();
+        for i in 0..n {
+            let _ = idx.ensure_index(MT::iri(format!("http://x/t{i}")).to_simple());
+        }
+        // a clone that diverges issues indices its original never issued
+        let mut cl = idx.clone();
+        let mut issued = vec![];
+        for i in 0..3 {
+            if let Ok(j) = cl.ensure_index(MT::string(format!("only in the clone {i}")).to_simple()) {
+                issued.push(j.into_usize());
+            }
+        }
+        let (mut panicked, mut returned) = (0, 0);
+        for off in issued.iter().copied().chain(extra.iter().map(|e| idx.len() + e)) {
+            if off >= I::MAX.into_usize() {
+                continue;
+            }
+            let r = std::panic::catch_unwind(std::panic::AssertUnwindSafe(|| {
+                let t = idx.get_term(I::from_usize(off));
+                // use every byte of whatever came back
+                MT::from_term(t).show().len()
+            }));
+            match r {
+                Err(_) => panicked += 1,
+                Ok(_) => returned += 1,
+            }
+        }
+        (panicked, returned)
+    }
+    std::panic::set_hook(Box::new(|_| {}));
+    let mut p = 0;
+    let mut r = 0;
+    for n in [0usize, 1, 3, 4, 7, 8, 15, 16, 100, 1000] {
+        for (a, b) in [
+            probe::<u16>(n, &[0, 1, 5, 1000, 60000]),
+            probe::<u32>(n, &[0, 1, 5, 1000, 1 << 20, 1 << 30]),
+            probe::<Tiny<6>>(n.min(6), &[0, 1, 2]),
+        ] {
+            p += a;
+            r += b;
+        }
+    }
+    println!("PROBE panicked={p} returned={r}");
+    0
+}
+
+fn probe_stage(res: &mut ExtraResult) {
+    use std::process::{Command, Stdio};
+    let mut bins: Vec<(String, std::path::PathBuf)> = vec![];
+    if let Ok(me) = std::env::current_exe() {
+        bins.push(("verif".into(), me));
+    }
+    if let Some(p) = std::env::var_os("VCHECK_ASAN").map(std::path::PathBuf::from) {
+        if p.is_file() {
+            bins.push(("asan".into(), p));
+        }
+    }
+    let mut info = vec![];
+    for (label, bin) in bins {
+        let out = Command::new(&bin)
+            .arg("--worker")
+            .arg("C10")
+            .arg("probe-unissued-index")
+            .env("ASAN_OPTIONS", "detect_leaks=0:abort_on_error=0:exitcode=77:symbolize=0")
+            .stdout(Stdio::piped())
+            .stderr(Stdio::piped())
+            .output();
+        res.evaluations += 1;
+        match out {
+            Err(e) => res.inconclusive.push(format!("cannot spawn probe worker ({label}): {e}")),
+            Ok(o) => {
+                let so = String::from_utf8_lossy(&o.stdout).to_string();
+                let se = String::from_utf8_lossy(&o.stderr).to_string();
+                if o.status.success() && so.contains("PROBE ") {
+                    res.nontrivial += 1;
+                    info.push(json!({"binary": label, "result": so.trim()}));
+                } else {
+                    let tail: String = se.lines().rev().take(12).collect::<Vec<_>>().into_iter().rev().collect::<Vec<_>>().join("\n");
+                    res.failures.push((
+                        json!({"probe": "unissued-index", "binary": label}),
+                        Failure {
+                            signature: "ub/get_term-with-unissued-index".into(),
+                            detail: format!(
+                                "TermIndex::get_term (a safe method) called with an index this instance never issued killed the process instead of panicking: status {:?}\nstdout: {}\nstderr (tail): {}",
+                                o.status, so.trim(), tail
+                            ),
+                        },
+                    ));
+                }
+            }
+        }
+    }
+    if let serde_json::Value::Object(m) = &mut res.info {
+        m.insert("unissued_index_probe".into(), json!(info));
+    } else {
+        res.info = json!({"unissued_index_probe": info});
+    }
+}
+
 pub fn main(opts: &Opts) -> i32 {
     drive::<C10>(opts)
 }
@@ -941,6 +1067,9 @@ pub fn worker(args: &[String]) -> i32 {
         eprintln!("usage: vcheck --worker C10 <cases.json>");
         return 2;
     };
+    if file == "probe-unissued-index" {
+        return probe_body();
+    }
     let txt = match std::fs::read_to_string(file) {
         Ok(t) => t,
         Err(e) => {
